@@ -198,9 +198,17 @@ theorem pickSet_sync (cfg : FCfg) (doTLS : Bool) (cache : List Cached) (s1 s2 : 
   unfold pickSet candidates
   rw [h.negotiated, h.state]
 
-theorem select_sync (cfg : FCfg) (doTLS listReq : Bool) (cache : List Cached) :
+theorem finishList_sync (cfg : FCfg) (skipped : List Cached) (s1 s2 : Sess) (h : Sync s1 s2) :
+    RelRes (finishList cfg skipped s1) (finishList cfg skipped s2) := by
+  unfold finishList
+  rw [h.negotiated, h.state]
+  split
+  · exact ⟨rfl, h.trace⟩
+  · exact ⟨rfl, h⟩
+
+theorem select_sync (cfg : FCfg) (doTLS listReq : Bool) (cache skipped : List Cached) :
     ∀ orc s1 s2, Sync s1 s2 →
-      RelRes (select cfg doTLS listReq cache orc s1) (select cfg doTLS listReq cache orc s2) := by
+      RelRes (select cfg doTLS listReq cache skipped orc s1) (select cfg doTLS listReq cache skipped orc s2) := by
   intro orc
   induction orc with
   | nil =>
@@ -208,7 +216,7 @@ theorem select_sync (cfg : FCfg) (doTLS listReq : Bool) (cache : List Cached) :
     unfold select
     rw [pickSet_sync cfg doTLS cache s1 s2 h]
     split
-    · exact ⟨rfl, h⟩
+    · exact finishList_sync cfg skipped s1 s2 h
     · exact ⟨rfl, h.trace⟩
   | cons e orc' ih =>
     intro s1 s2 h
@@ -217,7 +225,7 @@ theorem select_sync (cfg : FCfg) (doTLS listReq : Bool) (cache : List Cached) :
     rw [pickSet_sync cfg doTLS cache s1 s2 h]
     generalize pickSet cfg doTLS cache s2 = al
     split
-    · exact ⟨rfl, h⟩
+    · exact finishList_sync cfg skipped s1 s2 h
     · dsimp only
       cases hf : al.find? (fun c => c.id == id) with
       | none => exact ⟨rfl, h.trace⟩
@@ -280,7 +288,7 @@ theorem negotiateFeatures_sync (cfg : FCfg) (first : Bool) (s1 s2 : Sess) (h : S
           · split
             · exact ⟨rfl, hs.trace⟩
             · rw [hs.oracle]
-              exact select_sync cfg _ _ _ _ _ _ hs
+              exact select_sync cfg _ _ _ _ _ _ _ hs
       | _ => exact ⟨rfl, hs.trace⟩
 
 /-- **One negotiator call in clear text does not depend on how the unit stream is cut.** -/
